@@ -148,24 +148,24 @@ Definition res_matches (t : nat) (r : res) (st : sst) : bool :=
   | _, _ => false
   end.
 
-(* one event: Some S' (possibly empty = rejected) or None (closure ran out of fuel) *)
-Definition on_event (c : cfg) (e : ev) (S : list state) : option (list state) :=
-  match tau c S with
-  | None => None
-  | Some T =>
-    Some match e with
-    | ECall t => apply_label c (SubmitCall t) T
-    | EStopCall => apply_label c StopCall T
-    | ERzCall n => apply_label c (RzCall n) T
-    | EFinish t => apply_finish c t T
-    | ERet t acc => filter (sub_is t (fun st => if acc then match st with SWait | SGot _ | SNotExec => true | _ => false end
-                                                else match st with SRejected => true | _ => false end)) T
-    | EStart t _ => filter (fun s => mem_nat t (exec_tasks (workers s)) || mem_nat t (executed s)) T
-    | ERes t r => filter (sub_is t (res_matches t r)) T
-    | EStopRet => filter (fun s => match stop s with SpIdle => true | _ => false end) T
-    | ERzRet => filter (fun s => match rz s with RpIdle => true | _ => false end) T
-    | EQuiesce blk => filter (fun s => quiescentb c s && same_set (blocked s) blk) T
-    end
+(* one event.  Calls and gate releases are LTS labels: apply the label, then close under internal steps.
+   Noticed facts are filters; each of them is stable under internal steps (answers are final, a started
+   task stays started-or-executed, only a call leaves SpIdle/RpIdle, a quiescent state has no successor),
+   so a filtered closed set is closed.  Some S' (possibly empty = rejected) or None (out of fuel). *)
+Definition on_event (c : cfg) (e : ev) (T : list state) : option (list state) :=
+  let after (S : list state) := tau c S in
+  match e with
+  | ECall t => after (apply_label c (SubmitCall t) T)
+  | EStopCall => after (apply_label c StopCall T)
+  | ERzCall n => after (apply_label c (RzCall n) T)
+  | EFinish t => after (apply_finish c t T)
+  | ERet t acc => Some (filter (sub_is t (fun st => if acc then match st with SWait | SGot _ | SNotExec => true | _ => false end
+                                                    else match st with SRejected => true | _ => false end)) T)
+  | EStart t _ => Some (filter (fun s => mem_nat t (exec_tasks (workers s)) || mem_nat t (executed s)) T)
+  | ERes t r => Some (filter (sub_is t (res_matches t r)) T)
+  | EStopRet => Some (filter (fun s => match stop s with SpIdle => true | _ => false end) T)
+  | ERzRet => Some (filter (fun s => match rz s with RpIdle => true | _ => false end) T)
+  | EQuiesce blk => Some (filter (fun s => quiescentb c s && same_set (blocked s) blk) T)
   end.
 
 Definition is_panic_ev (e : ev) : bool := match e with ERes _ RPanic => true | _ => false end.
@@ -182,7 +182,11 @@ Fixpoint monitor (c : cfg) (i : N) (S : list state) (evs : list ev) : list (N * 
       end
   end.
 
-Definition mismatch (c : case) : list (N * N) := monitor current_cfg 0%N [canon (init (c_n c))] (c_evs c).
+Definition mismatch (c : case) : list (N * N) :=
+  match tau current_cfg [canon (init (c_n c))] with
+  | Some S0 => monitor current_cfg 0%N S0 (c_evs c)
+  | None => [(0%N, code_mismatch)]
+  end.
 
 (* ---------- the oracle: C20 on the log itself ---------- *)
 Record ost := { o_size : nat; o_target : option nat; o_started : list nat; o_res : list (nat * res); o_called : list nat }.
